@@ -405,6 +405,21 @@ func (h *harness) startup(fileYAML map[string]any, rawYAML string, env map[strin
 	if path == "" && form >= 0 {
 		h.nfile++
 		path = filepath.Join(h.dir, fmt.Sprintf("cfg-%d.yaml", h.nfile))
+		if h.nfile%5 == 2 {
+			// the selected file carries the default file's NAME (config.yaml) but lies in another directory, and the
+			// working directory holds a different config.yaml: the selected one counts
+			sub := filepath.Join(h.dir, fmt.Sprintf("d%d", h.nfile))
+			cwd := filepath.Join(h.dir, fmt.Sprintf("cwd%d", h.nfile))
+			if os.MkdirAll(sub, 0o755) == nil && os.MkdirAll(cwd, 0o755) == nil {
+				if b, err := yaml.Marshal(decoy(fileYAML)); err == nil && os.WriteFile(filepath.Join(cwd, "config.yaml"), b, 0o600) == nil {
+					if old, err := os.Getwd(); err == nil && os.Chdir(cwd) == nil {
+						defer func() { _ = os.Chdir(old); _ = os.RemoveAll(cwd); _ = os.RemoveAll(sub) }()
+						path = filepath.Join(sub, "config.yaml")
+						h.r.Count("start_ups_with_a_selected_config_yaml_elsewhere_and_another_in_the_working_directory", 1)
+					}
+				}
+			}
+		}
 		text := rawYAML
 		if text == "" {
 			b, err := yaml.Marshal(fileYAML)
